@@ -288,6 +288,26 @@ def run(ctx: common.Ctx):
     ctx.extra["exhaustive"] = False
     ctx.extra["one_axis_space_exhaustive_up_to_extent"] = 3 if ctx.tier == "quick" else 4
 
+    # ---- strings of rank >= 2 with integer entries: always exercised (recorded finding) -----------------
+    for dtype in ("utf8", "nutf8"):
+        for shape, idx in [((2, 3), (("i", 1), "e")), ((2, 3), (("s", None, None, None), ("i", 1))), ((3, 2, 2), (("i", -1), ("i", 0), "e"))]:
+            tok = impl.token_array(shape, dtype, salt=1)
+            exp = (np_index(tok, to_py(idx)), None)
+            for mode in ("eager", "static"):
+                try:
+                    if mode == "eager":
+                        got = ndx.asarray(tok)[to_py(idx)].to_numpy()
+                    else:
+                        x = ndx.array(shape=shape, dtype=impl.dt(dtype))
+                        out = x[to_py(idx)]
+                        got = impl.run_model(ndx.build({"x": x}, {"o": out}), impl.feed("x", tok, dtype), {"o": out})["o"]
+                except Exception as e:
+                    report(ctx, (shape, idx), dtype, mode, f"raised {type(e).__name__}", exp)
+                    continue
+                ctx.case((shape, idx, dtype, mode), True)
+                if not same(got, exp[0]):
+                    report(ctx, (shape, idx), dtype, mode, impl.canon(got), exp)
+
     from . import c08_arrays
     c08_arrays.run(ctx)
 
@@ -319,8 +339,10 @@ def report(ctx, case, dtype, mode, observed, expected):
     shape, idx = case
     np_res, _ = expected
     kind = "slice" if any(isinstance(e, tuple) and e[0] == "s" for e in idx) else "int"
+    has_int = any(isinstance(e, tuple) and e[0] == "i" for e in idx)
+    dcls = "string-nd" if (dtype in ("utf8", "nutf8") and len(shape) >= 2 and has_int) else "any"
     ctx.violation(
-        f"getitem/basic-{kind}/{mode}",
+        f"getitem/basic-{kind}/{dcls}/{mode}",
         f"x[{to_py(idx)}] on shape {shape} ({dtype}, {mode}) differs from NumPy",
         {"shape": shape, "index": str(to_py(idx)), "dtype": dtype, "mode": mode,
          "observed": observed, "expected_numpy": impl.canon(np_res),
